@@ -8,8 +8,13 @@ terminator), so the real `run_phase`, `generic_handler`, `IpcCommand.__call__`, 
     IpcCommandError(code, msg) or something else), so its outcome is known and everything written/left unread is
     compared with the Lean model (edge A) and with the property (edge C);
   * real-helper sessions: doins/dodoc/doexe/dodir/keepdir/dosym/dohard on a scratch image directory, with options
-    forcing the external `install` fallback and injected failures of copyfile/makedirs/symlink; the replies are decoded
-    by the real bash functions `__ebd_read_array` (ebuild-daemon-lib.bash) and compared with what is on disk.
+    forcing the external `install` fallback, real obstacles in the image (a regular file where a directory is needed) and
+    injected failures (several errnos) of the os-level primitives copyfile/mkdir/chmod/chown/symlink; the replies are decoded
+    by the real bash functions `__ebd_read_array` (ebuild-daemon-lib.bash) and compared with what is on disk (existence,
+    content, requested mode);
+  * directory-creation sessions: dodir/keepdir requests for 1-3 directories each of which is fresh, already there, blocked
+    by a regular file (at the leaf or at a parent) or hit by a failing mkdir/chmod; reply compared with the Lean model of
+    `_install_dirs` (`installDirsPy`) and with the directories on disk.
 """
 import errno
 import io
@@ -31,6 +36,7 @@ OBLIGATIONS = [
     "Pkgcore.C32.success_continues",
     "Pkgcore.C32.install_fallback_truthful",
     "Pkgcore.C32.install_fallback_legacy_counterexample",
+    "Pkgcore.C32.install_dirs_truthful",
     "Pkgcore.C32.reply_read_exactly_partial",
     "Pkgcore.C32.reply_read_exactly_counterexample",
     "Pkgcore.C32.legacy_multiline_counterexample",
@@ -61,7 +67,9 @@ RULE = ("request streams of 1-6 requests; probe sessions: outcomes None/int/str/
         "ONE set of long-lived helper objects (7 helpers, recursive installs of trees with directory symlinks and dangling "
         "symlinks, earlier requests failing nonfatally inside each coroutine, then valid requests), "
         "existing/missing sources, options handled in Python, options forcing the `install` fallback (valid and invalid for "
-        "install), injected EIO/ENOSPC in copyfile/makedirs/symlink; non-trivial = the session contains a failing request or "
+        "install), a regular file in the image where a directory is needed, injected ENOSPC/EACCES/EROFS/EIO/EDQUOT in "
+        "copyfile/mkdir/chmod/chown/symlink; directory-creation sessions (1-3 directories, each fresh/existing/blocked at leaf or "
+        "parent/failing mkdir/failing chmod, with and without diroptions); non-trivial = the session contains a failing request or "
         "a fallback to `install`; distinct by request stream")
 LEVEL_TEXT = ("Kernel-checked Lean 4 theorems, for every request, every behaviour of shlex/chdir/the helper body: exactly one reply line "
               "is written (by __call__ or by run_generic_phase's error path), it contains no line break, its status field reads as "
@@ -453,6 +461,9 @@ def _run(ctx, mods, ebd_path, FakePkg, scratch):
     t0 = time.time()
     _real_helpers(ctx, mods, ebd_path, pkg, scratch, rng, sess)
     t["real_helpers"] = round(time.time() - t0, 1)
+    t0 = time.time()
+    _dir_creation(ctx, mods, ebd_path, pkg, scratch, rng, sess)
+    t["dir_creation"] = round(time.time() - t0, 1)
 
 
 def _effective(r, s):
@@ -526,6 +537,58 @@ def _install_fallback(ctx, mods, pkg, scratch, rng):
         spawn.spawn_get_output = saved
 
 
+ERRNOS = [errno.ENOSPC, errno.EACCES, errno.EROFS, errno.EIO, errno.EDQUOT]
+
+
+class OsFaults:
+    """os-level fault injection: while active, the primitives `shutil.copyfile`, `os.mkdir` (hence `os.makedirs` and every
+    library routine creating directories), `os.chmod`/`os.lchown`/`os.chown` and the link function of dosym raise
+    OSError(errno) when the path they are asked to touch contains one of the registered markers."""
+
+    def __init__(self, ebd_ipc, faults):
+        # faults: list of (primitive class, path marker, errno); classes: copyfile, mkdir, attr, symlink
+        self.ebd_ipc = ebd_ipc
+        self.bad = {}
+        for prim, marker, eno in faults:
+            self.bad.setdefault(prim, []).append((marker, eno))
+        self.hits = []
+
+    def _wrap(self, prim, orig, argno):
+        bad = self.bad.get(prim, [])
+
+        def f(*a, **kw):
+            path = os.fspath(a[argno])
+            if isinstance(path, bytes):
+                path = os.fsdecode(path)
+            for marker, eno in bad:
+                if (marker + "/") in path + "/":
+                    self.hits.append((prim, path))
+                    raise OSError(eno, os.strerror(eno), path)
+            return orig(*a, **kw)
+        return f
+
+    def __enter__(self):
+        ebd_ipc = self.ebd_ipc
+        self.saved = (shutil.copyfile, os.mkdir, os.chmod, os.lchown, os.chown, ebd_ipc.Dosym._link)
+        if "copyfile" in self.bad:
+            shutil.copyfile = self._wrap("copyfile", self.saved[0], 1)
+        if "mkdir" in self.bad:
+            os.mkdir = self._wrap("mkdir", self.saved[1], 0)
+        if "attr" in self.bad:
+            os.chmod = self._wrap("attr", self.saved[2], 0)
+            os.lchown = self._wrap("attr", self.saved[3], 0)
+            os.chown = self._wrap("attr", self.saved[4], 0)
+        if "symlink" in self.bad:
+            ebd_ipc.Dosym._link = staticmethod(self._wrap("symlink", self.saved[5], 1))
+        return self
+
+    def __exit__(self, *a):
+        shutil.copyfile, os.mkdir, os.chmod, os.lchown, os.chown, self.ebd_ipc.Dosym._link = self.saved
+
+
+FILE_MODE, DIR_MODE = 0o640, 0o750      # differ from what the umask alone would give, so a skipped chmod shows on disk
+
+
 def _real_helpers(ctx, mods, ebd_path, pkg, scratch, rng, sess):
     """request sequences against ONE set of long-lived helper objects (as in a build: ebd.__init__ creates them once),
     on one image directory; earlier requests fail nonfatally inside each of the helpers' coroutines (file install,
@@ -546,6 +609,15 @@ def _real_helpers(ctx, mods, ebd_path, pkg, scratch, rng, sess):
 
     ed = os.path.join(scratch, "image-long") + "/"
     os.makedirs(ed)
+    old_umask = os.umask(0o022)
+    try:
+        _real_helper_sessions(ctx, mods, ebd_path, pkg, rng, sess, work, ed)
+    finally:
+        os.umask(old_umask)
+
+
+def _real_helper_sessions(ctx, mods, ebd_path, pkg, rng, sess, work, ed):
+    processor, ebd_mod, ebd_ipc = mods
     op = Op(pkg, ed)
     handlers = {"doins": ebd_ipc.Doins(op), "dodoc": ebd_ipc.Dodoc(op), "doexe": ebd_ipc.Doexe(op), "dodir": ebd_ipc.Dodir(op),
                 "keepdir": ebd_ipc.Keepdir(op), "dosym": ebd_ipc.Dosym(op), "dohard": ebd_ipc.Dohard(op)}
@@ -554,7 +626,12 @@ def _real_helpers(ctx, mods, ebd_path, pkg, scratch, rng, sess):
         """-> (lines, request record); the expectation is only informational, truth comes from the disk"""
         dest = f"/s{si}_d{i}"
         root = ed + dest.lstrip("/")
-        ins = {"fallback_ok": "-m0644 -C", "fallback_bad": "-m0644 --bogus-option"}.get(mode, "-m0644")
+        ins = {"fallback_ok": "-m0640 -C", "fallback_bad": "-m0640 --bogus-option"}.get(mode, "-m0640")
+        if mode in ("blocked", "blocked-leaf"):
+            # a real obstacle in the image: a regular file where the request needs a directory
+            leaf = mode == "blocked-leaf" and kind in ("dodir", "keepdir")
+            os.makedirs(root if leaf else os.path.dirname(root), exist_ok=True)
+            open(root + "/x" if leaf else root, "w").write("in the way")
         if kind in ("doins", "dodoc", "doexe"):
             srcs = ["nonexistent-file"] if mode == "missing" else ["f1"]
             opts = f'--dest="{dest}" --insoptions="{ins}"' + ('' if kind == "dodoc" else ' --diroptions=""')
@@ -567,7 +644,7 @@ def _real_helpers(ctx, mods, ebd_path, pkg, scratch, rng, sess):
                 os.makedirs(root + "/treeA")
                 os.symlink("elsewhere", root + "/treeA/dlink")      # the directory symlink cannot be created
         elif kind in ("dodir", "keepdir"):
-            dirins = {"fallback_ok": "-m0755 -C", "fallback_bad": "-m0755 --bogus-option"}.get(mode, "-m0755")
+            dirins = {"fallback_ok": "-m0750 -C", "fallback_bad": "-m0750 --bogus-option"}.get(mode, "-m0750")
             opts = f'--diroptions="{dirins}"'
             args, probe = [dest + "/x"], ("keep" if kind == "keepdir" else "dir", root + "/x")
         elif kind == "dosym":
@@ -585,22 +662,24 @@ def _real_helpers(ctx, mods, ebd_path, pkg, scratch, rng, sess):
     def on_disk(r):
         what, path = r["probe"]
         if what == "file":
-            return os.path.isfile(path) and open(path).read() == "content of f1"
+            return (os.path.isfile(path) and open(path).read() == "content of f1"
+                    and os.stat(path).st_mode & 0o7777 == FILE_MODE)
         if what == "tree":
             if path.endswith("treeB"):
                 return False          # its dangling symlink cannot be installed (`install` semantics: stat of the source fails)
             return (os.path.isfile(path + "/a.txt") and os.path.isfile(path + "/sub/b.txt") and os.path.islink(path + "/dlink")
                     and os.readlink(path + "/dlink") == "sub")
         if what == "dir":
-            return os.path.isdir(path)
+            return os.path.isdir(path) and os.stat(path).st_mode & 0o7777 == DIR_MODE
         if what == "keep":
-            return os.path.isdir(path) and any(f.startswith(".keep_") for f in os.listdir(path))
+            return (os.path.isdir(path) and os.stat(path).st_mode & 0o7777 == DIR_MODE
+                    and any(f.startswith(".keep_") for f in os.listdir(path)))
         if what == "link":
             return os.path.islink(path) and os.readlink(path) == "/target/of/link"
         return os.path.exists(path)
 
     FAULT_TARGET = {"doins": "copyfile", "dodoc": "copyfile", "doexe": "copyfile", "doins-r": None, "dodoc-r": None,
-                    "dodir": "makedirs", "keepdir": "makedirs", "dosym": "symlink"}
+                    "dodir": "mkdir", "keepdir": "mkdir", "dosym": "symlink"}
     # scripted openers: a nonfatal failure inside each coroutine, then valid requests of every kind on the same helpers
     OPENERS = [
         [("doins-r", "dangling"), ("doins-r", "py"), ("doins", "py"), ("dodoc-r", "py")],        # install + walk
@@ -611,13 +690,18 @@ def _real_helpers(ctx, mods, ebd_path, pkg, scratch, rng, sess):
         [("doins", "fallback_bad"), ("doins", "py"), ("doins", "fallback_ok"), ("doins", "py")],
         [("dodir", "fallback_bad"), ("dodir", "py"), ("dodir", "fault"), ("dodir", "py")],
         [("dosym", "fault"), ("dosym", "py"), ("doexe", "fallback_bad"), ("doexe", "py")],
+        # real obstacles and failing attribute changes, nonfatal then fatal
+        [("dodir", "blocked"), ("dodir", "py"), ("keepdir", "blocked-leaf"), ("keepdir", "py"), ("doins", "blocked"), ("doins", "py")],
+        [("dodir", "fault-attr"), ("dodir", "py"), ("doins", "fault-attr"), ("doins", "py"), ("dosym", "blocked"), ("dosym", "py")],
+        [("dodir", "py"), ("dodir", "blocked", "false"), ("dodir", "py")],
+        [("keepdir", "fault", "false"), ("keepdir", "py")],
     ]
     KINDS = ["doins", "doins", "doins-r", "doins-r", "dodoc", "dodoc-r", "doexe", "dodir", "keepdir", "dosym", "dohard"]
     streams, infos = [], []
     nsess = ctx.n(40, 500)
     for si in range(nsess):
         if si < len(OPENERS):
-            plan = [(k, m, "true") for k, m in OPENERS[si]]
+            plan = [(o[0], o[1], o[2] if len(o) > 2 else "true") for o in OPENERS[si]]
         else:
             plan = []
             for _ in range(rng.choice([2, 3, 4, 5])):
@@ -625,35 +709,28 @@ def _real_helpers(ctx, mods, ebd_path, pkg, scratch, rng, sess):
                 if kind.endswith("-r"):
                     mode = rng.choice(["py", "py", "dangling", "linkexists", "fault-dirs", "fallback_ok"])
                 else:
-                    mode = rng.choice(["py", "py", "fallback_ok", "fallback_bad", "missing", "fault"])
+                    mode = rng.choice(["py", "py", "fallback_ok", "fallback_bad", "missing", "fault", "blocked"]
+                                      + (["blocked-leaf", "fault-attr"] if kind in ("dodir", "keepdir") else [])
+                                      + (["fault-attr"] if kind in ("doins", "dodoc", "doexe") else []))
                 plan.append((kind, mode, "true" if rng.random() < 0.85 else "false"))
         lines, reqs, faults = [], [], []
         for i, (kind, mode, nonfatal) in enumerate(plan):
             l, r = make_request(si, i, kind, mode, nonfatal)
             lines += l
             reqs.append(r)
+            eno = rng.choice(ERRNOS)
             if mode == "fault" and FAULT_TARGET.get(kind):
-                faults.append((FAULT_TARGET[kind], r["dest"]))
+                faults.append((FAULT_TARGET[kind], r["dest"], eno))
             if mode == "fault-dirs":
-                faults.append(("makedirs", r["dest"]))
+                faults.append(("mkdir", r["dest"], eno))
+            if mode == "fault-attr":
+                faults.append(("attr", r["dest"], eno))
         lines.append("phases succeeded")
 
-        # fault injection: the primitive fails (ENOSPC) whenever it touches the destination of a faulted request
-        def failing():
-            raise OSError(errno.ENOSPC, os.strerror(errno.ENOSPC))
-        saved = (shutil.copyfile, os.makedirs, ebd_ipc.Dosym._link)
-        bad = {t: [d for tt, d in faults if tt == t] for t in ("copyfile", "makedirs", "symlink")}
-        if bad["copyfile"]:
-            shutil.copyfile = lambda s_, d_, _o=saved[0], **kw: failing() if any(m + "/" in d_ for m in bad["copyfile"]) else _o(s_, d_, **kw)
-        if bad["makedirs"]:
-            os.makedirs = lambda p_, *a, _o=saved[1], **kw: failing() if any((m + "/") in p_ + "/" for m in bad["makedirs"]) else _o(p_, *a, **kw)
-        if bad["symlink"]:
-            ebd_ipc.Dosym._link = staticmethod(lambda s_, d_, _o=saved[2], **kw: failing() if any(m + "/" in d_ for m in bad["symlink"]) else _o(s_, d_, **kw))
-        try:
+        # fault injection: a primitive fails whenever it touches the destination of a faulted request
+        with OsFaults(ebd_ipc, faults):
             end, replies, left, exc = sess.run(pkg, handlers, lines)
-        finally:
-            shutil.copyfile, os.makedirs, ebd_ipc.Dosym._link = saved
-        case = {"kind": "real", "session": si, "requests": reqs, "faults": [list(f) for f in faults],
+        case = {"kind": "real", "session": si, "requests": reqs, "faults": [[f[0], f[1], errno.errorcode[f[2]]] for f in faults],
                 "note": "helper objects are shared by all sessions of the run, in session order"}
         ctx.case(case, any(r["mode"] != "py" for r in reqs), key=repr(lines))
         for r in reqs:
@@ -695,3 +772,123 @@ def _real_helpers(ctx, mods, ebd_path, pkg, scratch, rng, sess):
             ctx.violation(case, f"reply statuses read by bash {[st for _, st in rs]} say success={got}, on disk the actions succeeded={want}")
     ctx.extra["real_helper_sessions"] = nsess
     ctx.traces += nsess
+
+
+DIR_CONDS = ["fresh", "fresh", "existing", "blocked-parent", "blocked-leaf", "mkdir-fault", "attr-fault"]
+DIR_CORPUS = [
+    # (helper, diroptions given, nonfatal, condition of each requested directory)
+    ("dodir", True, "true", ["fresh"]),
+    ("dodir", True, "true", ["blocked-parent"]),
+    ("dodir", True, "false", ["blocked-parent"]),
+    ("dodir", True, "true", ["blocked-leaf"]),
+    ("dodir", True, "true", ["mkdir-fault"]),
+    ("dodir", True, "true", ["attr-fault"]),
+    ("dodir", True, "true", ["existing", "attr-fault"]),
+    ("dodir", False, "true", ["fresh", "blocked-leaf", "fresh"]),
+    ("dodir", False, "true", ["attr-fault", "existing"]),
+    ("keepdir", True, "true", ["fresh", "mkdir-fault"]),
+    ("keepdir", True, "false", ["blocked-leaf"]),
+    ("keepdir", False, "true", ["existing", "fresh"]),
+    ("dodir", True, "true", ["fresh", "fresh", "blocked-parent"]),
+]
+
+
+def _dir_creation(ctx, mods, ebd_path, pkg, scratch, rng, sess):
+    """dodir/keepdir (the Python path of `_install_dirs`) on one pair of long-lived helper objects: every requested directory
+    is fresh, already there, blocked by a regular file (leaf or parent) or hit by a failing mkdir / chmod.  The reply must be
+    the model's (`installDirsPy`, theorem install_dirs_truthful) and must say success exactly when every requested directory is
+    on disk with the requested mode."""
+    processor, ebd_mod, ebd_ipc = mods
+    ed = os.path.join(scratch, "image-dirs") + "/"
+    os.makedirs(ed)
+    work = os.path.join(scratch, "dwork")
+    os.makedirs(work)
+    op = Op(pkg, ed)
+    handlers = {"dodir": ebd_ipc.Dodir(op), "keepdir": ebd_ipc.Keepdir(op)}
+    plans = list(DIR_CORPUS)
+    for _ in range(ctx.n(40, 600)):
+        plans.append((rng.choice(["dodir", "dodir", "keepdir"]), rng.random() < 0.75, "true" if rng.random() < 0.8 else "false",
+                      [rng.choice(DIR_CONDS) for _ in range(rng.choice([1, 1, 2, 3]))]))
+    old_umask = os.umask(0o022)
+    records, mreqs, streams = [], [], []
+    try:
+        for ci, (helper, withopts, nonfatal, conds) in enumerate(plans):
+            steps, faults, paths, targets = [], [], [], []
+            for di, cond in enumerate(conds):
+                marker = f"/c{ci}/d{di}"
+                rel = marker + "/usr/lib"
+                path = os.path.join(ed, "", rel.lstrip("/"))
+                mk = at = None
+                eno = rng.choice(ERRNOS)
+                if cond == "existing":
+                    os.makedirs(path, mode=0o755)
+                elif cond == "blocked-parent":
+                    os.makedirs(os.path.dirname(os.path.dirname(path)))
+                    open(os.path.dirname(path), "w").write("in the way")
+                    mk = os.strerror(errno.ENOTDIR)
+                elif cond == "blocked-leaf":
+                    os.makedirs(os.path.dirname(path))
+                    open(path, "w").write("in the way")
+                    mk = os.strerror(errno.EEXIST)
+                elif cond == "mkdir-fault":
+                    faults.append(("mkdir", marker, eno))
+                    mk = os.strerror(eno)
+                elif cond == "attr-fault":
+                    faults.append(("attr", marker, eno))
+                    at = os.strerror(eno)
+                steps.append([repr(path), mk, at])
+                paths.append(path)
+                targets.append(rel)
+            opts = '--diroptions="-m0750"' if withopts else '--diroptions=""'
+            lines = [helper, nonfatal, work, "install", opts, "".join(a + "\0" for a in targets), "phases succeeded"]
+            with OsFaults(ebd_ipc, faults):
+                end, replies, left, exc = sess.run(pkg, handlers, lines)
+            keep = f".keep_{pkg.category}_{pkg.PN}-{pkg.slot}"
+            disk = [os.path.isdir(p_) and (not withopts or os.stat(p_).st_mode & 0o7777 == DIR_MODE)
+                    and (helper != "keepdir" or os.path.isfile(os.path.join(p_, keep))) for p_ in paths]
+            case = {"kind": "dirs", "helper": helper, "diroptions": opts, "nonfatal": nonfatal, "targets": targets,
+                    "conditions": conds, "faults": [[f[0], f[1], errno.errorcode[f[2]]] for f in faults],
+                    "note": "one Dodir and one Keepdir object serve all cases of the run, in order"}
+            ctx.case(case, any(c not in ("fresh", "existing") for c in conds), key=repr((helper, withopts, nonfatal, conds)))
+            for c in conds:
+                ctx.count("dircond_" + c)
+            ctx.count("dirs_withopts_%s" % withopts)
+            records.append((case, replies, end, exc, disk, nonfatal))
+            mreqs.append({"cmd": "c32.installdirs", "opts": withopts, "steps": steps})
+    finally:
+        os.umask(old_umask)
+    decoded = bash_decode(ebd_path, [((r[1] or b"") + b"SENTINEL\n", 1) for r in records])
+    for (case, replies, end, exc, disk, nonfatal), m, (rs, rest, eof) in zip(records, ctx.model(mreqs), decoded):
+        if replies is None:
+            ctx.mismatch(case, "run_generic_phase never reached start_processing")
+            continue
+        text = replies.decode("utf-8", "surrogateescape")
+        if text.count("\n") != 1 or not text.endswith("\n"):
+            ctx.violation(case, f"one request, but the reply stream is {text!r}")
+            continue
+        reply = text[:-1]
+        done = all(disk)
+        if eof or rest != b"SENTINEL\n" or len(rs) != 1:
+            ctx.violation(case, f"after one `read` bash is left with {rest[:80]!r} instead of the next message")
+            continue
+        said = rs[0][1] == b"0"
+        if said != done:
+            ctx.violation(case, f"reply {reply!r} reads as success={said}, but on disk the requested directories are as "
+                                f"requested={disk} (directory with mode {'0750' if case['diroptions'].endswith('0750\"') else 'any'}"
+                                f"{', keep file' if case['helper'] == 'keepdir' else ''})")
+            continue
+        want_end = {"finished": True} if done or nonfatal == "true" else "buildFailed"
+        if end != want_end:
+            ctx.violation(case, f"directories as requested={disk}, nonfatal={nonfatal}: the session should end with {want_end!r}, "
+                                f"it ended with {end!r} ({type(exc).__name__}: {str(exc)[:100]})")
+            continue
+        if m == "bad-op":
+            ctx.mismatch(case, "driver rejected the steps")
+            continue
+        outcome, m_ok, m_done = m
+        m_reply = "0" if "ok" in outcome else "%d\x07%s" % (outcome["err"][0], outcome["err"][1])
+        if m_done != done:
+            ctx.mismatch(case, f"the steps given to the model say done={m_done}, the disk says {disk}")
+        elif m_reply != reply:
+            ctx.mismatch(case, f"reply {reply!r}, the model of _install_dirs gives {m_reply!r}")
+    ctx.extra["dir_creation_cases"] = len(plans)
